@@ -1,3 +1,70 @@
-From PV Require Import Expect.Model.
-Theorem placeholder : True. Proof. exact I. Qed.
-Print Assumptions placeholder.
+(** C02 A reported match is genuine, leftmost, and lowest-index on ties.  Property theorems only. *)
+From Coq Require Import ZArith NArith List Bool Arith.
+Import ListNotations.
+From PV Require Import Base.PySeq Base.PySeqFacts Base.Rx Base.RxFacts Expect.Model Expect.Spec Expect.Refine Expect.SpecFacts.
+
+(** Whenever a call returns index i for a text pattern (from any reachable state, any events): with P the
+    pending text at the read that matched and w its searchable part (last W characters), pattern i has its
+    leftmost candidate at span (st, en) of w; after = w[st:en]; before = P up to that position;
+    before ++ after ++ new pending = P; the match object's span is (st, en); no listed pattern has a
+    candidate starting earlier and among those starting at st the first listed wins. *)
+Theorem C02_match_is_genuine_leftmost :
+  forall (rx : Type) (re_search : rx -> text -> nat -> option (nat * nat)),
+  (forall r t p a b, re_search r t p = Some (a, b) -> a <= b) ->
+  forall (c : cfg rx) (t0 : bool) (s : st) (evs : list ev), wfW rx c -> Inv s ->
+  forall i b a sp s' evs', expect_loop rx re_search c t0 s evs = (Matched i b a sp, s', evs') ->
+  exists used st en, evs = used ++ evs' /\
+    let P := pend s ++ data_of used in
+    let w := lastW (W c) P in
+    (exists e, nth_error (pats c) i = Some e /\ occ_full rx re_search c w e = Some (st, en)) /\
+    a = firstn (en - st) (skipn st w) /\ b = firstn (length P - length w + st) P /\
+    b ++ a ++ pend s' = P /\
+    (ckind c = KRe \/ W c <> None -> sp = (st, en)) /\
+    (forall j e a' b', nth_error (pats c) j = Some e -> occ_full rx re_search c w e = Some (a', b') ->
+                       st <= a' /\ (a' = st -> i <= j)).
+Proof. exact match_is_genuine_leftmost. Qed.
+Print Assumptions C02_match_is_genuine_leftmost.
+
+(** For the string searcher a candidate IS the leftmost occurrence of the literal: after is the literal
+    itself and the literal occurs nowhere earlier in the searched text ... *)
+Theorem C02_exact_candidate :
+  forall (rx : Type) (re_search : rx -> text -> nat -> option (nat * nat)) (c : cfg rx) w s0 a b,
+  ckind c = KExact -> occ_full rx re_search c w (PStr s0) = Some (a, b) ->
+  b = a + length s0 /\ occb s0 w a = true /\ (forall k, k < a -> occb s0 w k = false) /\
+  firstn (b - a) (skipn a w) = s0.
+Proof. exact occ_full_exact. Qed.
+Print Assumptions C02_exact_candidate.
+
+(** ... and a literal without candidate does not occur at all. *)
+Theorem C02_exact_no_candidate :
+  forall (rx : Type) (re_search : rx -> text -> nat -> option (nat * nat)) (c : cfg rx) w s0,
+  ckind c = KExact -> occ_full rx re_search c w (PStr s0) = None -> forall k, occb s0 w k = false.
+Proof. exact occ_full_exact_none. Qed.
+Print Assumptions C02_exact_no_candidate.
+
+(** For the regex searcher a candidate is what the engine's search from position 0 returns; for the engine
+    used to execute the model this is the leftmost position at which the pattern matches (law R, assumed of CPython's re). *)
+Theorem C02_engine_leftmost : forall r t pos a b, rx_search r t pos = Some (a, b) ->
+  pos <= a /\ a <= b /\ match_at t r a = Some b /\ forall k, pos <= k -> k < a -> match_at t r k = None.
+Proof. exact rx_search_spec. Qed.
+Print Assumptions C02_engine_leftmost.
+
+(** EOF / TIMEOUT entries keep their positions in the list: the index reported for them is a position of
+    that marker in the list as given (the last one if it is listed twice). *)
+Theorem C02_marker_positions :
+  forall (rx : Type) (p : entry rx -> bool) (l : list (entry rx)),
+  match last_index p l with
+  | Some i => (exists e, nth_error l i = Some e /\ p e = true) /\
+              forall j e, nth_error l j = Some e -> p e = true -> j <= i
+  | None => forall e, In e l -> p e = false
+  end.
+Proof. exact last_index_spec. Qed.
+Print Assumptions C02_marker_positions.
+
+(** non-vacuity: 'foo' listed second still wins over 'foobar' listed third and 'bar' listed first on "foobar" *)
+Example C02_doc_example :
+  fst (fst (expect_loop rx rx_search
+              {| ckind := KExact; pats := [PStr [98;97;114]%N; PStr [102;111;111]%N; PStr [102;111;111;98;97;114]%N]; W := None |}
+              false {| pend := []; buf := [] |} [Data [102;111;111;98;97;114]%N]))
+  = Matched 1 [] [102;111;111]%N (0, 3).
+Proof. vm_compute. reflexivity. Qed.
